@@ -16,11 +16,16 @@ inductive Ctx | spec | route | subroute
   deriving DecidableEq, Repr
 
 /-- A policy as the generator sees it: its kind and the state of what it depends on (dep1: the secret / App Protect
-policy; dep2: the second secret of egressMTLS / the App Protect log configuration; unused ones are `ok`). -/
+policy; dep2: the second secret of egressMTLS / the App Protect log configuration; unused ones are `ok`).
+`addWAFConfig` returns early only for a missing App Protect policy; a missing bundle, log configuration or log bundle sets
+`isError` and goes on — every one of them must make the scope answer with an error. -/
 structure Pol where
   kind : Kind
   dep1 : Dep
   dep2 : Dep
+  /-- further things a WAF policy depends on, each of which must be usable: the App Protect bundle (`apBundle`, checked on
+  disk), the log configuration / log bundle of every further `securityLogs` entry. Empty for every other kind. -/
+  extra : List Dep := []
   deriving DecidableEq, Repr
 
 def Dep.bad (d : Dep) : Bool := d != .ok
@@ -38,7 +43,7 @@ def isError (ctx : Ctx) (tls : Bool) (configured : List Kind) (p : Pol) : Bool :
   | .imtls => !tls || ctx != .spec || p.dep1.bad
   | .emtls => p.dep1.bad || p.dep2.bad
   | .apikey => configured.contains .apikey || p.dep1.bad
-  | .waf => p.dep1.bad || p.dep2.bad
+  | .waf => p.dep1.bad || p.dep2.bad || p.extra.any Dep.bad
 
 /-- ingressMTLS checks TLS and context before it checks for an earlier policy of its kind. -/
 def ignored (ctx : Ctx) (tls : Bool) (configured : List Kind) (p : Pol) : Bool :=
